@@ -8,6 +8,15 @@ VERIF = os.path.dirname(os.path.dirname(os.path.abspath(__file__)))
 
 # id -> (technique, level text, level note, design ref)
 CLAIMED = json.load(open(os.path.join(VERIF, "scripts", "claims.json")))
+DESCR = json.loads(subprocess.run([os.path.join(VERIF, "bin", "nricheck"), "-describe"], stdout=subprocess.PIPE, check=True).stdout)
+NOTE = "Trusted base: Go type checker and go/ssa (x/tools v0.29.0); context-insensitive analysis; calls outside the repository (standard library, ttrpc, wazero, runtime-tools) are opaque except for the summaries listed in DESIGN.md 2.2. The clauses decided are structural necessary conditions of the property, not the behaviour itself; not decided: "
+for pid, c in CLAIMED.items():
+    d = DESCR.get(pid)
+    if d is None:
+        c["claimed"] = False
+        continue
+    c.setdefault("text", d["explanation"] + " Level 'other': the property quantifies over runtime values, schedules or faults that no sound static argument can bound, so the strongest honest claim is this exhaustive check of the code's structure (every site, path and table entry, enumerated from the current tree on every run).")
+    c.setdefault("note", NOTE + "; ".join(d["not_decided"]) + ".")
 PENDING_REASON = "check not built yet in this revision (DESIGN.md section 3 describes the planned structural rules); not claimed until the checker decides it"
 
 props = [json.loads(l) for l in open(os.path.join(VERIF, "properties.jsonl"))]
